@@ -300,6 +300,25 @@ pub fn generate(tier: &str, seed: u64, out: &mut Out) {
     lf_cut_streams(out, "corpus-former-D6", "osu file format v14\n\n[Metadata]\nTitle:abc\n", usize::MAX);
     lf_cut_streams(out, "corpus-former-D6-crlf", "osu file format v14\r\n\r\n[Metadata]\r\nTitle:\u{6f22}\u{1f600} \r\nArtist:y", usize::MAX);
 
+    // ---- long lines: a supplementary character (two UTF-16 units, four UTF-8 bytes), a
+    // three-byte character and a CR LF placed so that they straddle every offset around the
+    // powers of two from 32 to 8192 units of a line (buffer / block sizes of a reader)
+    {
+        let mut k = 32usize;
+        while k <= 8192 {
+            for delta in [0usize, 1, 2, 3] {
+                let pad = (k + delta).saturating_sub(6 + 2);       // "Title:" + room before the boundary
+                for ch in ['\u{1F3B5}', '\u{4E0A}', '\u{10FFFF}'] {
+                    let title: String = std::iter::repeat('a').take(pad).chain([ch, 'z']).collect();
+                    let text = format!("osu file format v14\n\n[Metadata]\nTitle:{title}\nArtist:{ch}b\r\nCreator:c\n");
+                    four_encodings(out, "long-line-boundary", &text, k <= 512 || thorough);
+                    out.count("text.long_line_boundary");
+                }
+            }
+            k *= 2;
+        }
+    }
+
     // ---- Encoding::from_bom
     {
         let alpha = [0xEFu8, 0xBB, 0xBF, 0xFF, 0xFE, 0x00, 0x41];
